@@ -116,7 +116,7 @@ var metas = map[string]*checkMeta{
 		Rule: "plan = messages queued on up to 6 chunk streams (ids from {2,3,4,5,63,64,65,100,319,320,321,1000,65598,65599,random} in 1/2/3-byte basic-header form), requested header type 0..3 per message (degraded to a legal one), absolute timestamps producing deltas around 0/0xFFFFFE/0xFFFFFF/0x1000000 and backward jumps, lengths straddling the chunk size, Set Chunk Size messages in between, tape-chosen chunk-level interleaving and read segmentation; 32% of plans inject one rule-breaking chunk (type 0 inside an unfinished message, length changed mid-message, fresh chunk stream starting with type 1/2/3) or the librtmp 0x42 ping form. Non-trivial = at least one message or an injected chunk. Distinct = distinct plan bodies.",
 		Components: map[string]string{"rtmp.Protocol.ReadMessage": "real", "peer": "reference RTMP 1.0 chunker (ref/chunker.go, stub written from the spec), cross-checked per run by the reference parser", "transport": "sim reader (segmentation, EOF)"},
 		Assumptions: append([]string{"type-3 chunks carry the extended timestamp when the stream's most recent type 0/1/2 header had one (RTMP 1.0 section 5.3.1.3)", "a type-3 header starting a new message right after a type-0 header uses that header's timestamp as its delta (section 5.3.1.2.4)"}, stdAssume...),
-		Faults:      []string{"short_reads", "one_byte_reads", "rule_breaking_trace_kind1", "rule_breaking_trace_kind2", "rule_breaking_trace_kind3", "rule_breaking_trace_kind4"},
+		Faults:      []string{"short_reads", "one_byte_reads", "rule_breaking_trace_kind1", "rule_breaking_trace_kind2", "rule_breaking_trace_kind3", "rule_breaking_trace_kind4", "rule_breaking_trace_kind5"},
 		Probes:      []string{"msgs_started_with_type0", "msgs_started_with_type1", "msgs_started_with_type2", "msgs_started_with_type3", "chunks_with_extended_timestamp", "type3_chunks_with_extended_timestamp", "basic_header_2byte", "basic_header_3byte", "interleaved_chunks"},
 	},
 	"C03": {
@@ -128,7 +128,7 @@ var metas = map[string]*checkMeta{
 		Components: map[string]string{"rtmp.Protocol (WritePacket, ReadMessage, DecodeMessage, ExpectPacket, ExpectMessage), amf0": "real", "transport": "sim duplex", "transaction model": "sequential map tid->request name replayed over the event log (stub)"},
 		Assumptions: append([]string{"createStream and play have no dispatch case in the library and are accepted as the generic *CallPacket (re-marshalling identically)", "a _result decoded while the matching request's WritePacket call is still in progress may be matched or rejected (that window is C04's subject)", "strings are limited to 65535 bytes (AMF0 short string)"}, stdAssume...),
 		Faults:      []string{"short_reads", "one_byte_reads", "split_writes", "blocked_reads"},
-		Probes:      []string{"responses_matched", "responses_without_request", "responses_of_other_kind", "responses_in_registration_window", "typed_packet_waits", "typed_message_waits", "packets_skipped_by_waits", "user_control_event_types_swept", "sync_deadlocks_broken"},
+		Probes:      []string{"responses_matched", "responses_without_request", "responses_of_other_kind", "responses_in_registration_window", "responses_named_error", "typed_packet_waits", "typed_message_waits", "packets_skipped_by_waits", "user_control_event_types_swept", "sync_deadlocks_broken"},
 	},
 	"C04": {
 		ID: "C04", Level: "exploration",
@@ -140,10 +140,10 @@ var metas = map[string]*checkMeta{
 				Quick: tierCfg{Count: 300, Budget: 60 * time.Second},
 				Thor:  tierCfg{Count: 6000, Budget: 15 * time.Minute}},
 		},
-		Rule: "plan = request sequence of endpoint A (connect / createStream with distinct positive ids, up to 12) with a per-request answer mode for the peer (at once, delayed until the next request, at the end; optionally answered twice) x segmentation x schedule tape over the tasks W (marshal, transport write(s), bookkeeping), R (read, decode, lookup) and P (read, respond); the transport deposits W's bytes and then yields, so P and R can run inside W's write call. Phase 'oracle': channel gates, direct oracle on the ordered event log + porcupine cross-check. Phase 'race': the same plans on raw-futex gates in a -race build; any race report with both accesses in go-oryx-lib is a violation. Non-trivial = at least one request. Distinct = distinct plan bodies.",
+		Rule: "plan = request sequence of endpoint A (connect / createStream with distinct positive ids, up to 12) with a per-request answer mode for the peer (at once, delayed until the next request, at the end; optionally answered twice) x an optional transport write error at one of W's write calls (accepting nothing, 3 bytes or everything) x segmentation x schedule tape over the tasks W (marshal, transport write(s), bookkeeping), R (read, decode, lookup) and P (read, respond); the transport deposits W's bytes and then yields, so P and R can run inside W's write call. Phase 'oracle': channel gates, direct oracle on the ordered event log + porcupine cross-check. Phase 'race': the same plans on raw-futex gates in a -race build; any race report with both accesses in go-oryx-lib is a violation. Non-trivial = at least one request. Distinct = distinct plan bodies.",
 		Components: map[string]string{"rtmp.Protocol A (WritePacket, ReadMessage, DecodeMessage)": "real", "peer P": "real rtmp.Protocol driven by a responder task", "transport": "sim duplex with post-deposit yield", "scheduler": "tape-driven; channel gates (oracle) / raw futex gates invisible to the race detector (race)", "linearizability": "porcupine v1.3.0 against a sequential map model"},
 		Assumptions: append([]string{"a request counts as handed to the transport at the scheduler step of the deposit that carries its last byte", "race engine: handshake skipped; only detector reports whose two access stacks both top out in go-oryx-lib are violations, anything else is harness trouble (exit 2)"}, stdAssume...),
-		Faults:      []string{"short_reads", "split_writes", "blocked_reads", "responses_decoded_inside_write_call", "duplicate_responses"},
+		Faults:      []string{"fault_write_error", "requests_failed_by_write_fault", "short_reads", "split_writes", "blocked_reads", "responses_decoded_inside_write_call", "duplicate_responses"},
 		Probes:      []string{"responses_decoded_inside_write_call", "duplicate_responses", "porcupine_histories_checked", "race_engine_runs", "task_switches"},
 	},
 	"C20": {
